@@ -729,11 +729,9 @@ impl Game {
         }
 
         let mut push = |_move| {
-            // SAFETY: The number of possible moves on the board at any given time
-            // will never exceed the arrays capacity (256)
-            unsafe {
-                moves.push_unchecked(_move);
-            }
+            // Reachable positions never have more moves than the array's capacity (256),
+            // but a FEN can describe one that does; those moves are dropped
+            let _ = moves.try_push(_move);
         };
 
         for row in 0..8 {
